@@ -135,15 +135,22 @@ def _arith(op, a, b, c):
             return U
         if isinstance(a, int) and isinstance(b, int):
             if a % b != 0:
+                if "int-div-truncates" in c.fences:
+                    # OData: integer division; engines that implement it (SQLite's `/` on
+                    # integers) truncate toward zero
+                    q = abs(a) // abs(b)
+                    return q if (a >= 0) == (b >= 0) else -q
                 c.notes.add("inexact-int-div")
                 return U
             return a // b
         return _check_big(a / b)
     if op == "mod":
-        if not (isinstance(a, int) and isinstance(b, int)) or b <= 0 or a < 0:
-            c.notes.add("mod-negative-or-zero")
+        if not (isinstance(a, int) and isinstance(b, int)) or b == 0:
+            c.notes.add("mod-by-zero")
             return U
-        return a % b
+        # remainder with the sign of the dividend (OData / SQL / C semantics)
+        r = abs(a) % abs(b)
+        return r if a >= 0 else -r
     return U
 
 
